@@ -41,7 +41,7 @@ CONSTANTS
  Mutant = "{mutant}"
 """
 
-TUPLES = (("S", "F"), ("S", "S"), ("F", "F"), ("S", "F", "F"), ("S", "S", "F"))
+TUPLES = (("S", "F"), ("S", "S"), ("F", "F"), ("S", "F", "F"), ("S", "S", "F"), ("S", "D"))
 KNOWN_MSG = "flipped() can only flip an interface object"
 DEFECT_CLAUSE = "flipped_interface_dimensioned_member"
 
@@ -148,11 +148,13 @@ class Tester:
         self.viol = []          # (key, description)
         self.stats = {"connect_calls": 0, "sims": 0, "variants": 0, "metadata": 0, "defect_hits": 0,
                       "unspecified": 0, "checks": 0}
-        self.defect = False     # the state ran into the known FlippedInterface TypeError
+        self.defect = False     # the state ran into the FlippedInterface TypeError
+        self.connect_broken = False   # connect on a compliant tuple raised something else than ConnectionError
+        self.dim_sub = has_dim_sub(ms)   # part of every violation key: the tree has a dimensioned signature member
 
     # ---- reporting ----
     def bad(self, clause, op, text, **extra):
-        key = {"clause": clause, "op": op}
+        key = {"clause": clause, "op": op, "dim_sub": self.dim_sub}
         key.update(extra)
         self.viol.append((key, "Signature(%s): %s" % (tree_repr(self.ms), text)))
 
@@ -161,7 +163,7 @@ class Tester:
         if isinstance(e, TypeError) and str(e).startswith(KNOWN_MSG):
             self.defect = True
             self.stats["defect_hits"] += 1
-            self.viol.append(({"clause": DEFECT_CLAUSE, "error": "TypeError", "op": op},
+            self.viol.append(({"clause": DEFECT_CLAUSE, "error": "TypeError", "op": op, "dim_sub": self.dim_sub},
                               "Signature(%s)%s: %s raises TypeError: %s" % (
                                   tree_repr(self.ms), subject, op, str(e)[:160])))
         else:
@@ -199,7 +201,7 @@ class Tester:
         self.eq("flip_eq", "eq", (fsig == sig, sig == fsig), (exp["eqFlip"],) * 2, "sig.flip() == sig")
         self.eq("flip_eq", "eq", build_sig(x) == sig, True, "a second construction of the same signature == sig")
         # Flip as data (every top-level member with the other flow) is what the proxy must equal
-        fdata = build_sig({"fl": False, "ms": tuple({**m, "flow": "In" if m["flow"] == "Out" else "Out"} for m in self.ms)})
+        self.fdata = fdata = build_sig({"fl": False, "ms": tuple({**m, "flow": "In" if m["flow"] == "Out" else "Out"} for m in self.ms)})
         self.eq("flip_eq", "eq", (fdata == fsig, fsig == fdata, fdata.flip() == sig), (True, True, True),
                 "Signature(members flipped one by one) == sig.flip()")
 
@@ -227,17 +229,17 @@ class Tester:
         # -- connect on tuples obtained by flipping, every permutation
         for ti, t in enumerate(TUPLES):
             out = exp["conn"][ti]
+            if self.defect and ti > 0 and "F" in t:
+                continue    # every further connect with a proxy runs into the same TypeError
             perms = list(itertools.permutations(range(len(t))))
             for pi, perm in enumerate(perms):
                 args = [self.make_arg(k, "a%d" % i) for i, k in enumerate(t)]
                 sim = self.opts["sim_all"] or pi == 0 or pi == len(perms) - 1
                 self.check_connect(t, args, perm, out, sim=sim, what="tuple %s order %s" % ("".join(t), perm))
-            if self.defect and ti == 0:
-                break   # every further connect runs into the same TypeError
 
-        # -- single-point corruptions
+        # -- single-point corruptions (meaningless when the compliant tuple cannot be connected in the first place)
         if exp.get("vars") or exp.get("cvars") or exp.get("ovars"):
-            if self.defect:
+            if self.defect or self.connect_broken:
                 self.stats["variants_skipped_defect"] = 1
             else:
                 self.check_variants()
@@ -319,6 +321,8 @@ class Tester:
                          "store the unflipped one(s) in obj" % m["name"])
 
     def make_arg(self, k, name, ms=None):
+        if k == "D":
+            return self.fdata.create(path=(name,))
         if ms is None:
             sig = self.sig
         else:
@@ -349,6 +353,8 @@ class Tester:
             err = e
         except Exception as e:  # noqa: BLE001
             self.report_exc("connect", e, " " + what, clause="unexpected_exception" if clause == "connect" else clause)
+            if clause == "connect":
+                self.connect_broken = True
             return
         want_err = bool(out["errs"])
         if out["unspec"]:
@@ -674,16 +680,22 @@ def _chunk(job):
     return res
 
 
-def run_config(ctx, name, cfg_text, opts, workers, expect_actions=True):
+def run_tlc(ctx, name, cfg_text, opts):
     dump = os.path.join(ctx.tmp, "dump_" + name)
-    r = ctx.tlc("Wiring", stage="mc/" + name, cfg_text=cfg_text, workers=workers,
+    r = ctx.tlc("Wiring", stage="mc/" + name, cfg_text=cfg_text, workers=opts.get("workers", 4),
                 args=("-deadlock", "-dump", dump) + (("-coverage", "1") if opts.get("coverage") else ()))
     if opts.get("coverage"):
         ctx.require_actions(r, ["AddPort", "OpenSub", "CloseSub"], "mc/" + name)
-    path = dump + ".dump"
+    return r, dump + ".dump"
+
+
+def replay_dump(ctx, name, r, path, opts):
     jobs = [(c, opts) for c in split_dump(path, 64 if os.path.getsize(path) > (1 << 20) else 8)]
     results = pmap(_chunk, jobs)
     os.unlink(path)
+    shown = ctx.__dict__.setdefault("_c14_shown", {})
+    rest = ctx.__dict__.setdefault("_c14_rest", {})
+    forwarded = {}
     tot = {"closed": 0, "open": 0, "nviol": 0, "dim_sub": 0, "nontrivial": 0}
     stats, keys, last = {}, {}, {"AddPort": 0, "CloseSub": 0}
     fps = set()
@@ -698,13 +710,23 @@ def run_config(ctx, name, cfg_text, opts, workers, expect_actions=True):
             last[k] += v
         fps.update(res["fps"])
         for key, desc, rep in res["viol"]:
-            ctx.violation(key, desc, replay=rep)
+            kk = repr(sorted(key.items()))
+            if shown.get(kk, 0) < 2:          # the first occurrences carry the description and the replay
+                shown[kk] = shown.get(kk, 0) + 1
+                ctx.violation(key, desc, replay=rep)
+                forwarded[kk] = forwarded.get(kk, 0) + 1
         if res["sample"]:
             ctx.sample({"config": name, **res["sample"]})
         for md in res["msgdiff"]:
             note = "error message kind %s outside the specification's kinds %s (not a verdict)" % (md[0], md[1])
             if note not in ctx.notes and len(ctx.notes) < 10:
                 ctx.notes.append(note)
+    for res in results:
+        for key, desc, rep in res["viol"]:
+            rest.setdefault(repr(sorted(key.items())), [key, 0])
+    for kk, n in keys.items():
+        if kk in rest:
+            rest[kk][1] += n - forwarded.get(kk, 0)
     if tot["closed"] + tot["open"] != r.distinct:
         raise MachineryError("mc/%s: dump has %d states, TLC reported %d" % (name, tot["closed"] + tot["open"], r.distinct))
     # vacuity: every builder action produced tested states
@@ -721,35 +743,62 @@ def run_config(ctx, name, cfg_text, opts, workers, expect_actions=True):
     return tot, stats, fps
 
 
-def run(ctx):
-    th = ctx.thorough
-    # name, cfg, options
-    plans = []
-    # all leaf attributes x dimensions x flows, flat signatures; every single-point corruption
-    plans.append(("leaves", cfg(1, 2, 2, "DimsAll", "DimsNone", "AttrsAll", "FlipsNo", variants=True, triples=th),
-                  {"coverage": False, "metadata_every": 1 if th else 4}))
-    # nesting x dimensioned sub-signatures x In/Out x explicit flips; corruptions on the small trees
-    plans.append(("nested-corrupt", cfg(3 if th else 2, 2, 3 if th else 2, "DimsTwo", "DimsAll", "AttrsFew", "FlipsBoth",
-                                        variants=True, triples=th),
-                  {"coverage": True, "metadata_every": 1}))
-    if th:
-        plans.append(("nested", cfg(3, 2, 4, "DimsTwo", "DimsAll", "AttrsOne", "FlipsBoth"),
-                      {"coverage": False, "metadata_every": 16}))
-        plans.append(("nested-attrs", cfg(2, 2, 3, "DimsAll", "DimsAll", "AttrsFew", "FlipsBoth"),
-                      {"coverage": False, "metadata_every": 8}))
-        plans.append(("wide", cfg(2, 3, 3, "DimsTwo", "DimsTwo", "AttrsFew", "FlipsNo", variants=True),
-                      {"coverage": False, "metadata_every": 4}))
+def plans_for(th):
+    """(name, cfg, options).  P = port variants, S = sub-signature variants per member slot."""
+    P = []
+    # every leaf attribute x dimension x flow, flat signatures
+    P.append(("leaves", cfg(1, 2, 2, "DimsAll", "DimsNone", "AttrsAll", "FlipsNo"),
+              {"metadata_every": 2 if th else 8}))
+    # ... and every single-point corruption of every kind of leaf
+    P.append(("leaves-corrupt", cfg(1, 1, 1, "DimsAll", "DimsNone", "AttrsAll", "FlipsNo", variants=True, triples=True),
+              {"metadata_every": 1, "workers": 2}))
+    if not th:
+        # nesting x dimensioned sub-signatures x In/Out x explicit flips, with all corruptions
+        P.append(("nested-corrupt", cfg(2, 2, 2, "DimsTwo", "DimsAll", "AttrsOne", "FlipsBoth", variants=True),
+                  {"metadata_every": 2, "workers": 4}))
+        P.append(("nested", cfg(3, 2, 3, "DimsNone", "DimsTwo", "AttrsOne", "FlipsBoth"),
+                  {"metadata_every": 16, "workers": 8}))
     else:
-        plans.append(("nested", cfg(3, 2, 3, "DimsTwo", "DimsAll", "AttrsOne", "FlipsBoth"),
-                      {"coverage": False, "metadata_every": 8}))
+        P.append(("leaves2-corrupt", cfg(1, 2, 2, "DimsAll", "DimsNone", "AttrsFew", "FlipsNo", variants=True, triples=True),
+                  {"metadata_every": 1, "workers": 4}))
+        P.append(("nested-corrupt", cfg(3, 2, 3, "DimsNone", "DimsTwo", "AttrsFew", "FlipsBoth", variants=True),
+                  {"metadata_every": 8, "workers": 8}))
+        P.append(("nested-corrupt-dims", cfg(2, 2, 2, "DimsTwo", "DimsAll", "AttrsFew", "FlipsBoth", variants=True, triples=True),
+                  {"metadata_every": 1, "workers": 4}))
+        P.append(("nested", cfg(3, 2, 4, "DimsNone", "DimsTwo", "AttrsOne", "FlipsBoth"),
+                  {"metadata_every": 64, "workers": 8}))
+        P.append(("nested-attrs", cfg(2, 2, 3, "DimsAll", "DimsAll", "AttrsFew", "FlipsBoth"),
+                  {"metadata_every": 16, "workers": 8}))
+        P.append(("wide", cfg(2, 3, 3, "DimsTwo", "DimsTwo", "AttrsFew", "FlipsNo"),
+                  {"metadata_every": 8, "workers": 4}))
+    return P
+
+
+def run(ctx):
+    from concurrent.futures import ThreadPoolExecutor
+    th = ctx.thorough
+    # import everything the workers need before they are forked
+    import amaranth.sim  # noqa: F401
+    import amaranth.lib.wiring  # noqa: F401
+    schema_valid({"interface": {"members": {}, "annotations": {}}})
+    plans = [(n, c, {"sim_all": th, **o}) for n, c, o in plans_for(th)]
     fps = set()
-    total = 0
-    for name, text, opts in plans:
-        opts = {"sim_all": th, **opts}
-        tot, stats, f = run_config(ctx, name, text, opts, workers=8)
-        fps |= f
-        total += tot["closed"]
+    with ThreadPoolExecutor(2) as ex:
+        futs = [ex.submit(run_tlc, ctx, n, c, o) for n, c, o in plans]
+        for (name, text, opts), fu in zip(plans, futs):
+            r, path = fu.result()
+            tot, stats, f = replay_dump(ctx, name, r, path, opts)
+            fps |= f
     ctx.cov["_extra_distinct"] = len(fps)
+    for kk, (key, n) in sorted(ctx.__dict__.get("_c14_rest", {}).items()):
+        for _ in range(n):                     # the remaining occurrences: counted, not described
+            ctx.violation(key, "(further occurrence of %s)" % kk, replay=None)
+
+    # ---------------- coverage run: every builder action fires, all theorems (vacuity guard) ---------
+    r = ctx.tlc("Wiring", stage="mc/coverage", workers=2, count=False,
+                cfg_text=cfg(2, 2, 2, "DimsTwo", "DimsTwo", "AttrsOne", "FlipsBoth", variants=True),
+                args=("-deadlock", "-coverage", "1"))
+    ctx.require_actions(r, ["AddPort", "OpenSub", "CloseSub"], "mc/coverage")
 
     # ---------------- mutants: seeded specification errors must violate the theorems ----------------
     ctx.tlc("Wiring", stage="mutant/no_flip_into_dimensioned_sub", workers=2, count=False,
@@ -767,10 +816,14 @@ def run(ctx):
                                              "init": 1, "sub": {"fl": False, "ms": ()}},)}},)
     demo = _demo_expectation(ctx, demo_ms)
     good = test_state(demo_ms, demo, {"sim_all": True, "metadata": True})
-    if good.viol:
-        raise MachineryError("binding demo: the unmodified expectation is rejected: %r" % (good.viol[:2],))
     rejected = []
-    for what, mut in (("flatten flow", lambda e: e.__setitem__("flatS", (tuple(e["flatS"][0][:1]) + ("In",) + tuple(e["flatS"][0][2:]),) + tuple(e["flatS"][1:]))),
+    if good.viol:
+        # the library disagrees with the specification on the demo tree itself: that is a finding (the tree is
+        # also among the enumerated states), and the demonstration cannot be made on it
+        for key, desc in good.viol[:3]:
+            ctx.violation(key, desc, replay={"ms": demo_ms, "exp": demo, "opts": {"sim_all": True, "metadata": True}})
+        ctx.notes.append("binding demo skipped: the real library already violates the expectation of the demo tree")
+    for what, mut in () if good.viol else (("flatten flow", lambda e: e.__setitem__("flatS", (tuple(e["flatS"][0][:1]) + ("In",) + tuple(e["flatS"][0][2:]),) + tuple(e["flatS"][1:]))),
                       ("connect edge direction", lambda e: e["conn"].__setitem__(0, {**e["conn"][0], "edges": frozenset(
                           (x[1], x[0], x[2]) for x in e["conn"][0]["edges"])})),
                       ("connect error expected", lambda e: e["conn"].__setitem__(0, {**e["conn"][0], "errs": frozenset(["width_mismatch"]), "edges": frozenset()}))):
@@ -787,7 +840,7 @@ def run(ctx):
     ctx.cov["rule"] = ("cases = closed states of the Wiring builder (one signature tree each) replayed on the real library: "
                        "flip/equality, create, flatten, is_compliant, sub-interface access through flipped(), connect on 5 "
                        "tuples x all argument orders (statement structure + pysim data flow), single-point corruptions, "
-                       "component metadata; distinct = distinct trees; non-trivial = all (trees with >= 1 leaf dominate)")
+                       "component metadata; distinct = distinct trees")
     ctx.assume("bounds: see the stage configurations (depth, members, dimensions {(),(2),(2,1)}, shapes {u1,u2,s2}, inits {0,1})")
     ctx.assume("connect outcomes where no connection at all is made (no ports; all inputs constant) are unspecified by the "
                "documentation and accepted either way")
